@@ -94,7 +94,7 @@ pub fn hold_commits(hold: bool) {
 pub async fn install_commit_hold(store: &SqliteStore, n: u32) {
     let mut conns = vec![];
     for _ in 0..n {
-        conns.push(store.pool().acquire().await.expect("acquire pool connection"));
+        conns.push(acquire_patiently(store).await);
     }
     for c in conns.iter_mut() {
         let mut h = c.lock_handle().await.expect("lock sqlite handle");
@@ -107,4 +107,59 @@ pub async fn install_commit_hold(store: &SqliteStore, n: u32) {
         });
     }
     drop(conns);
+}
+
+/// A file-backed store whose pool gives up waiting for a free connection after `acquire_timeout`
+/// (sqlx's default is 30 s): with every connection checked out, `begin()` fails quickly with
+/// `PoolTimedOut` — the one way to make `pool.begin()` fail without breaking the database.
+pub async fn sqlite_file_with_acquire_timeout(path: &str, max_connections: u32, acquire_timeout: std::time::Duration) -> SqliteStore {
+    let url = format!("sqlite://{path}");
+    p2panda_store::sqlite::create_database(&url).await.expect("create database file");
+    // Opening a connection counts against the same timeout; on an overloaded machine that can
+    // take longer than the timeout, so opening is simply tried again.
+    let mut pool = None;
+    for _ in 0..100 {
+        match sqlx::sqlite::SqlitePoolOptions::new().max_connections(max_connections).acquire_timeout(acquire_timeout).test_before_acquire(false).connect(&url).await {
+            Ok(p) => {
+                pool = Some(p);
+                break;
+            }
+            Err(sqlx::Error::PoolTimedOut) => continue,
+            Err(e) => panic!("connect pool: {e}"),
+        }
+    }
+    let pool = pool.expect("connect pool (timed out 100 times)");
+    let mut migrated = false;
+    for _ in 0..100 {
+        match p2panda_store::sqlite::run_pending_migrations(&pool).await {
+            Ok(()) => {
+                migrated = true;
+                break;
+            }
+            Err(e) if e.to_string().contains("timed out") => continue,
+            Err(e) => panic!("migrations: {e}"),
+        }
+    }
+    assert!(migrated, "migrations (timed out 100 times)");
+    SqliteStore::from_pool(pool)
+}
+
+async fn acquire_patiently(store: &SqliteStore) -> sqlx::pool::PoolConnection<sqlx::Sqlite> {
+    for _ in 0..200 {
+        match store.pool().acquire().await {
+            Ok(c) => return c,
+            Err(sqlx::Error::PoolTimedOut) => continue,
+            Err(e) => panic!("acquire pool connection: {e}"),
+        }
+    }
+    panic!("acquire pool connection: timed out 200 times");
+}
+
+/// Check out `n` pool connections at once (dropping the result gives them back).
+pub async fn hog_connections(store: &SqliteStore, n: u32) -> Vec<sqlx::pool::PoolConnection<sqlx::Sqlite>> {
+    let mut v = vec![];
+    for _ in 0..n {
+        v.push(acquire_patiently(store).await);
+    }
+    v
 }
